@@ -39,3 +39,60 @@ N("C03", "compute_checksum via slice iteration", (F, "        for i in range(sta
 N("C03", "table generator as conditional expression", (F, "            if (byte ^ crc) & 1:\n                crc = (crc >> 1) ^ polynomial\n            else:\n                crc >>= 1\n",
                                                       "            crc = (crc >> 1) ^ polynomial if (byte ^ crc) & 1 else crc >> 1\n"))
 N("C03", "checksum via literal mask", (F, "return self._crc_value ^ 0xFFFF  # complement", "return 65535 ^ self._crc_value"))
+
+# ------------------------------------------------------------------------------------------------ C01
+H = "hdlc"
+S("C01", "is_valid: and -> or", "R1", (H, "if self.is_good_ffc and self.is_expected_length:", "if self.is_good_ffc or self.is_expected_length:"))
+S("C01", "is_valid: length check dropped", "R1", (H, "if self.is_good_ffc and self.is_expected_length:", "if self.is_good_ffc:"))
+S("C01", "is_valid: inverted return", "R1", (H, "            self.as_bytes.hex(),\n        )\n        return False", "            self.as_bytes.hex(),\n        )\n        return True"))
+S("C01", "append: register update dropped", "R2", (H, "        self._frame_data.append(byte)\n        self._ffc.update(byte)\n", "        self._frame_data.append(byte)\n"))
+S("C01", "append: register updated twice", "R2", (H, "        self._ffc.update(byte)\n", "        self._ffc.update(byte)\n        self._ffc.update(byte)\n"))
+S("C01", "append: register fed a different value", "R2", (H, "        self._ffc.update(byte)\n", "        self._ffc.update(byte & 0x7F)\n"))
+S("C01", "frame_length mask 0x7FF -> 0x3FF", "R3", (H, "return self.frame_format & 0b11111111111", "return self.frame_format & 0b1111111111"))
+S("C01", "frame_format operands swapped", "R3", (H, "return self._frame.as_bytes[0] << 8 | self._frame.as_bytes[1]", "return self._frame.as_bytes[1] << 8 | self._frame.as_bytes[0]"))
+S("C01", "segmentation bit 11 -> 12", "R3", (H, "return ((self.frame_format >> 11) & 0x1) == 0x1", "return ((self.frame_format >> 12) & 0x1) == 0x1"))
+S("C01", "payload slice -2 -> -1", "R4", (H, "return bytes(self._frame_data[info_position:-2])", "return bytes(self._frame_data[info_position:-1])"))
+S("C01", "information position +3 -> +2", "R4", (H, "            return self._control_position + 3\n", "            return self._control_position + 2\n"))
+S("C01", "address terminator & 0x01 -> & 0x80", "R4", (H, "if (current & 0x01) == 0x01:", "if (current & 0x80) == 0x80:"))
+S("C01", "source address at fixed offset 3", "R4", (H, "return self._get_address(2 + len(destination_adr))", "return self._get_address(3)"))
+S("C01", "HCS octets swapped", "R4", (H, "self._frame.as_bytes[cast(int, self._control_position) + 1] << 8\n                | self._frame.as_bytes[cast(int, self._control_position) + 2]",
+                                    "self._frame.as_bytes[cast(int, self._control_position) + 2] << 8\n                | self._frame.as_bytes[cast(int, self._control_position) + 1]"))
+S("C01", "emitted frame kept as current frame", "R6", (H, "                frames_received.append(cast(HdlcFrame, self._frame))\n                self._start_frame()\n", "                frames_received.append(cast(HdlcFrame, self._frame))\n"))
+S("C01", "rogue writer of the frame store", "R2", (H, "    def _start_frame(self) -> None:\n        self._frame = HdlcFrame()\n", "    def _start_frame(self) -> None:\n        self._frame = HdlcFrame()\n        self._frame._frame_data.append(0)\n"))
+N("C01", "is_valid as nested ifs", (H, "        if self.is_good_ffc and self.is_expected_length:\n            return True\n", "        if self.is_expected_length:\n            if self.is_good_ffc:\n                return True\n"))
+N("C01", "frame_format operand order of |", (H, "return self._frame.as_bytes[0] << 8 | self._frame.as_bytes[1]", "return self._frame.as_bytes[1] | (self._frame.as_bytes[0] << 8)"))
+N("C01", "frame_length hex mask", (H, "return self.frame_format & 0b11111111111", "return 0x7FF & self.frame_format"))
+N("C01", "source address start commuted", (H, "return self._get_address(2 + len(destination_adr))", "return self._get_address(len(destination_adr) + 2)"))
+N("C01", "append order swapped", (H, "        self._frame_data.append(byte)\n        self._ffc.update(byte)\n", "        self._ffc.update(byte)\n        self._frame_data.append(byte)\n"))
+
+# ------------------------------------------------------------------------------------------------ C02
+S("C02", "flag on empty frame sends the reader to hunt mode", "R1", (H, "            # Found new flag sequence. Two is normal ( end + start), one is allowed, and many possible if time fill.\n            pass\n",
+                                                                    "            self._goto_hunt_mode()\n"))
+S("C02", "closing-flag test negated", "R1", (H, "        elif self._frame.is_expected_length:\n            frame_complete = True", "        elif not self._frame.is_expected_length:\n            frame_complete = True"))
+S("C02", "length guard > -> >=", "R2", (H, "if self._frame is not None and len(self._frame) > HdlcFrame.MAX_FRAME_LENGTH:", "if self._frame is not None and len(self._frame) >= HdlcFrame.MAX_FRAME_LENGTH:"))
+S("C02", "unstuff xor 0x20 -> 0x02", "R1", (H, "unescaped = current ^ 0x20", "unescaped = current ^ 0x02"))
+S("C02", "escape octet also stored in the frame", "R1", (H, "                    self._unescape_next = True\n", "                    self._unescape_next = True\n                    self._frame.append(current)\n"))
+S("C02", "pending flag not cleared after un-stuffing", "R1", (H, "                self._unescape_next = False\n                unescaped", "                unescaped"))
+S("C02", "hunt-mode trim also on an empty frame", "R1", (H, "        if self._frame is None:  # in hunt mode\n            self._buffer.trim_buffer_to_flag_or_end()", "        if self._frame is None or len(self._frame) == 0:\n            self._buffer.trim_buffer_to_flag_or_end()"))
+S("C02", "pop advances by two", "R1", (H, "        self._buffer_pos += 1\n        return byte", "        self._buffer_pos += 2\n        return byte"))
+S("C02", "frame start in hunt mode dropped", "R1", (H, '            _LOGGER.debug("Found flag sequence in frame hunt mode")\n            self._start_frame()\n', '            _LOGGER.debug("Found flag sequence in frame hunt mode")\n'))
+S("C02", "MAX_FRAME_LENGTH 10 bits", "R2", (H, "MAX_FRAME_LENGTH: int = 0b11111111111", "MAX_FRAME_LENGTH: int = 0b1111111111"))
+N("C02", "flag test via local renamed", (H, "        is_flag = current == self.FLAG_SEQUENCE\n        if is_flag:", "        flag_seen = self.FLAG_SEQUENCE == current\n        if flag_seen:"))
+N("C02", "stuffing branch order inverted", (H, "                if current == HdlcFrameReader.CONTROL_ESCAPE:\n                    self._unescape_next = True\n                else:\n                    self._frame.append(current)",
+                                             "                if current != HdlcFrameReader.CONTROL_ESCAPE:\n                    self._frame.append(current)\n                else:\n                    self._unescape_next = True"))
+N("C02", "hunt test through the public property", (H, "        if self._frame is None:  # in hunt mode\n            self._buffer.trim_buffer_to_flag_or_end()", "        if self.is_in_hunt_mode:\n            self._buffer.trim_buffer_to_flag_or_end()"))
+N("C02", "raw store last octet via [-1]", (H, "and self._raw_frame_data[-1:][0] == self.CONTROL_ESCAPE", "and self._raw_frame_data[-1] == self.CONTROL_ESCAPE"))
+
+# ------------------------------------------------------------------------------------------------ C06
+S("C06", "read inspects len(data_chunk)", "N1", (H, "        self._buffer.extend(data_chunk)\n\n        if self._frame is None:", "        self._buffer.extend(data_chunk)\n        if len(data_chunk) == 0:\n            return frames_received\n\n        if self._frame is None:"))
+S("C06", "local counter carried across iterations", "N2", (H, "        while self._buffer.is_available:\n            frame_complete = self._read_next()\n            if frame_complete:",
+                                                          "        count = 0\n        while self._buffer.is_available:\n            count = count + 1\n            frame_complete = self._read_next() and count < 9\n            if frame_complete:"))
+S("C06", "hunt row with a side effect", "N6", (H, "        elif self._frame is not None:  # not in hunt mode\n            self._append_to_frame(current)\n", "        elif self._frame is not None:  # not in hunt mode\n            self._append_to_frame(current)\n        else:\n            self._raw_frame_data.append(current)\n"))
+S("C06", "look-ahead on escape", "N3", (H, "                if current == HdlcFrameReader.CONTROL_ESCAPE:\n                    self._unescape_next = True\n",
+                                         "                if current == HdlcFrameReader.CONTROL_ESCAPE:\n                    if self._buffer.is_available:\n                        self._frame.append(self._buffer.pop() ^ 0x20)\n                    else:\n                        self._unescape_next = True\n"))
+S("C06", "length check hoisted out of the step", "N3", (H, "        # release consumed bytes\n", "        if self._frame is not None and len(self._frame) > 100:\n            self._goto_hunt_mode()\n        # release consumed bytes\n"))
+S("C06", "trim to position drops one octet too many", "N4", (H, "        self._buffer = self._buffer[self._buffer_pos :]\n        self._buffer_pos = 0\n\n    def trim_buffer_to_flag", "        self._buffer = self._buffer[self._buffer_pos + 1 :]\n        self._buffer_pos = 0\n\n    def trim_buffer_to_flag"))
+S("C06", "trim to flag keeps the tail when no flag", "N5", (H, "            # flag sequence not found\n            self._buffer.clear()\n", "            # flag sequence not found\n            pass\n"))
+S("C06", "class-level pending flag", "N2", (H, "                    self._unescape_next = True\n", "                    self._unescape_next = True\n                    HdlcFrameReader.last_escape = True\n"))
+N("C06", "epilogue trim through a local alias", (H, "        # release consumed bytes\n        self._buffer.trim_buffer_to_current_position()\n", "        buf = self._buffer\n        buf.trim_buffer_to_current_position()\n"))
+N("C06", "loop test via method result variable", (H, "            frame_complete = self._read_next()\n            if frame_complete:", "            done = self._read_next()\n            if done:"))
